@@ -763,4 +763,357 @@ Section Proofs.
     split; [exact Hv3|]. split; [unfold Geom; cbn [nbuckets mask]; split; [lia|reflexivity]|]. split; [reflexivity|].
     rewrite HP3. exact HP2.
   Qed.
+
+  (* ---------------------------------------------------------------- I. AutoProbing and histories *)
+  Notation auto := (auto V).
+
+  Record AValid (a : auto) (e : N) : Prop := mkAValid {
+    a_valid : Valid (cells (backend a)) e;
+    a_geom : Geom (backend a) e;
+    a_entries : entries (backend a) = N.of_nat (length (contents (cells (backend a))));
+    a_thr : threshold a < 2 ^ e }.
+
+  Definition abs (a : auto) : list entry := contents (cells (backend a)).
+
+  Lemma threshold_lt_buckets nb : 1 <= nb -> threshold_of nb < nb.
+  Proof.
+    intros H. unfold threshold_of, thr_sub. pose proof (N.le_min_l (nb - 1) (nb * thr_num / thr_den)). lia.
+  Qed.
+
+  (* DoubleIfNeeded on a table whose entries_ field may already have been incremented (Insert) *)
+  Lemma double_if_needed_spec (a : auto) e : Valid (cells (backend a)) e -> Geom (backend a) e ->
+    threshold a < 2 ^ e ->
+    exists a1 e1, double_if_needed V v0 hash a = Ok a1 /\
+      Valid (cells (backend a1)) e1 /\ Geom (backend a1) e1 /\ threshold a1 < 2 ^ e1 /\
+      entries (backend a1) = entries (backend a) /\
+      Permutation (contents (cells (backend a1))) (contents (cells (backend a))) /\
+      ((e1 = e /\ entries (backend a) < threshold a) \/ e1 = e + 1).
+  Proof.
+    intros Hv Hg Ht. unfold double_if_needed, auto_size.
+    destruct (N.ltb_spec (entries (backend a)) (threshold a)) as [Hlt|Hge].
+    - exists a, e. split; [reflexivity|]. repeat (split; [solve [auto]|]). left. auto.
+    - destruct (double_correct (backend a) e Hv Hg) as (t' & Hd & Hv' & Hg' & He' & HP').
+      rewrite Hd. cbn [bind]. exists (mkAuto t' (threshold_of (nbuckets t'))), (e + 1).
+      cbn [backend threshold]. split; [reflexivity|]. split; [exact Hv'|]. split; [exact Hg'|].
+      split; [|split; [exact He'|split; [exact HP'|right; reflexivity]]].
+      destruct Hg' as [Hnb _]. rewrite Hnb. apply threshold_lt_buckets.
+      pose proof (pow2_pos (e + 1)). lia.
+  Qed.
+
+  Lemma pow2_le_succ e : 2 ^ e < 2 ^ (e + 1).
+  Proof. rewrite pow2_succ. pose proof (pow2_pos e). lia. Qed.
+
+  (* --- the abstract seen-set: an association list *)
+  Fixpoint assoc (m : list entry) (k : N) : option V :=
+    match m with
+    | [] => None
+    | e :: r => if ekey e =? k then Some (snd e) else assoc r k
+    end.
+  Definition set_assoc (k : N) (v : V) (m : list entry) : list entry :=
+    map (fun e : entry => if ekey e =? k then (k, v) else e) m.
+
+  Lemma assoc_in m k v : assoc m k = Some v -> In (k, v) m.
+  Proof.
+    induction m as [|[k' v'] r IH]; simpl; [discriminate|].
+    destruct (N.eqb_spec k' k) as [->|Ne]; intros H; [injection H as ->; auto|auto].
+  Qed.
+
+  Lemma in_assoc m k v : NoDup (map ekey m) -> In (k, v) m -> assoc m k = Some v.
+  Proof.
+    induction m as [|[k' v'] r IH]; simpl; intros ND Hin; [tauto|].
+    inversion ND as [|? ? Hn ND']; subst. destruct Hin as [E|Hin].
+    - injection E as -> ->. now rewrite N.eqb_refl.
+    - destruct (N.eqb_spec k' k) as [->|Ne]; auto.
+      exfalso. apply Hn. apply (in_map ekey) in Hin. exact Hin.
+  Qed.
+
+  Lemma assoc_none m k : assoc m k = None <-> ~ In k (map ekey m).
+  Proof.
+    induction m as [|[k' v'] r IH]; simpl; [tauto|].
+    destruct (N.eqb_spec k' k) as [->|Ne].
+    - split; [discriminate|]. intros H. exfalso. apply H. auto.
+    - rewrite IH. tauto.
+  Qed.
+
+  Inductive sanswer : Type :=
+  | SFoundOrInserted (found : bool) (v : option V)
+  | SInserted
+  | SFind (r : option V)
+  | SUpdate (found : bool).
+
+  (* what the seen-set must answer; None = the operation is outside the property
+     (key equal to the empty marker, or Insert of a key that is already present) *)
+  Definition spec_step (m : list entry) (o : op V) : option (sanswer * list entry) :=
+    match o with
+    | OpFindOrInsert k v =>
+      if k =? invalid then None else
+      match assoc m k with
+      | Some v' => Some (SFoundOrInserted true (Some v'), m)
+      | None => Some (SFoundOrInserted false (Some v), (k, v) :: m)
+      end
+    | OpInsert k v =>
+      if k =? invalid then None else
+      match assoc m k with
+      | Some _ => None
+      | None => Some (SInserted, (k, v) :: m)
+      end
+    | OpFind k => if k =? invalid then None else Some (SFind (assoc m k), m)
+    | OpUpdate k v =>
+      if k =? invalid then None else
+      match assoc m k with
+      | Some _ => Some (SUpdate true, set_assoc k v m)
+      | None => Some (SUpdate false, m)
+      end
+    end.
+
+  Fixpoint spec_run (m : list entry) (ops : list (op V)) : option (list sanswer * list entry) :=
+    match ops with
+    | [] => Some ([], m)
+    | o :: r =>
+      match spec_step m o with
+      | None => None
+      | Some (sa, m') =>
+        match spec_run m' r with
+        | None => None
+        | Some (sas, m'') => Some (sa :: sas, m'')
+        end
+      end
+    end.
+
+  (* forget the bucket positions of an answer *)
+  Definition erase (a : answer V) : sanswer :=
+    match a with
+    | AFoundOrInserted f _ v => SFoundOrInserted f v
+    | AInserted _ => SInserted
+    | AFind r => SFind (match r with Some (_, Some v) => Some v | _ => None end)
+    | AUpdate r => SUpdate (match r with Some _ => true | None => false end)
+    end.
+
+  Definition Rep (a : auto) (m : list entry) : Prop := Permutation (abs a) m.
+
+  Lemma rep_keys a m : Rep a m -> Permutation (keys (cells (backend a))) (map ekey m).
+  Proof. intros H. unfold keys. apply Permutation_map. exact H. Qed.
+
+  Lemma rep_nodup a e m : AValid a e -> Rep a m -> NoDup (map ekey m).
+  Proof. intros Hv Hr. eapply Permutation_NoDup; [apply rep_keys; eauto|]. apply Hv. Qed.
+
+  Lemma rep_present a e m k v : AValid a e -> Rep a m -> assoc m k = Some v ->
+    exists q, get (cells (backend a)) q = Some (k, v) /\ live (k, v) = true.
+  Proof.
+    intros Hv Hr Ha. apply assoc_in in Ha.
+    assert (Hin : In (k, v) (abs a)) by (eapply Permutation_in; [symmetry; exact Hr|exact Ha]).
+    apply in_contents in Hin. exact Hin.
+  Qed.
+
+  Lemma rep_absent a m k : Rep a m -> assoc m k = None -> ~ In k (keys (cells (backend a))).
+  Proof.
+    intros Hr Ha Hin. apply assoc_none in Ha. apply Ha.
+    eapply Permutation_in; [apply rep_keys; eauto|exact Hin].
+  Qed.
+
+  Lemma valid_set_value cs e q g en : Valid cs e -> get cs q = Some g -> live g = true -> ekey en = ekey g ->
+    Valid (upd cs q en) e.
+  Proof.
+    intros Hv Hg Lg K.
+    assert (Hq : q < len cs) by (eapply get_some_lt; eauto).
+    assert (L : live en = true) by (apply live_true; rewrite K; now apply live_true).
+    assert (HK : keys (upd cs q en) = keys cs) by (eapply contents_set_value; eauto).
+    constructor.
+    - rewrite len_upd. apply Hv.
+    - rewrite HK. apply Hv.
+    - intros q' en' Hq' L' x Hx. apply occ_upd_live; auto.
+      destruct (N.eq_dec q q') as [<-|Ne].
+      + rewrite get_upd_eq in Hq' by auto. injection Hq' as <-. rewrite K in Hx.
+        eapply (v_path _ _ Hv); eauto.
+      + rewrite get_upd_neq in Hq' by auto. eapply (v_path _ _ Hv); eauto.
+    - assert (Hlen : length (contents (upd cs q en)) = length (contents cs)).
+      { unfold keys in HK. apply (f_equal (@length N)) in HK. now rewrite !map_length in HK. }
+      rewrite Hlen. apply Hv.
+  Qed.
+
+  Lemma contents_set_value_perm cs q g k v m : NoDup (keys cs) -> get cs q = Some g -> live g = true -> ekey g = k ->
+    Permutation (contents cs) m -> Permutation (contents (upd cs q (k, v))) (set_assoc k v m).
+  Proof.
+    intros ND Hg Lg K HP.
+    set (f := fun e : entry => if ekey e =? k then (k, v) else e).
+    assert (Hmap : contents (upd cs q (k, v)) = map f (contents cs)).
+    { destruct (get_split _ _ _ Hg) as (l1 & l2 & -> & _ & Hu). rewrite Hu.
+      assert (L : live (k, v) = true) by (apply live_true; simpl; rewrite <- K; now apply live_true).
+      assert (Hfix : forall l, ~ In k (map ekey l) -> map f l = l).
+      { clear. induction l as [|h t IH]; simpl; intros H; auto.
+        f_equal; [|apply IH; tauto]. unfold f.
+        destruct (N.eqb_spec (ekey h) k); [exfalso; apply H; auto|reflexivity]. }
+      unfold keys, contents in *. rewrite !filter_app in *. cbn [filter] in *. rewrite L, Lg. rewrite Lg in ND.
+      rewrite !map_app in *. cbn [map] in *. rewrite K in ND.
+      assert (N1 : ~ In k (map ekey (filter live l1))).
+      { apply NoDup_remove_2 in ND. intros H. apply ND. apply in_or_app. auto. }
+      assert (N2 : ~ In k (map ekey (filter live l2))).
+      { apply NoDup_remove_2 in ND. intros H. apply ND. apply in_or_app. auto. }
+      rewrite (Hfix _ N1), (Hfix _ N2). unfold f. rewrite K, N.eqb_refl. reflexivity. }
+    rewrite Hmap. unfold set_assoc. apply Permutation_map. exact HP.
+  Qed.
+
+  Theorem step_refines (a : auto) e m o sa m' : AValid a e -> Rep a m -> spec_step m o = Some (sa, m') ->
+    exists ans a' e', step V v0 hash a o = Ok (ans, a') /\ AValid a' e' /\ Rep a' m' /\ erase ans = sa.
+  Proof.
+    intros Hv Hr Hs. destruct Hv as [Hval Hgeom Hent Hthr].
+    assert (HAV : AValid a e) by (constructor; auto).
+    destruct o as [k v|k v|k|k v]; cbn [spec_step] in Hs;
+      destruct (N.eqb_spec k invalid) as [|Hk]; try discriminate.
+    - (* FindOrInsert *)
+      cbn [step]. unfold auto_find_or_insert.
+      destruct (double_if_needed_spec a e Hval Hgeom Hthr) as (a1 & e1 & Hd & Hv1 & Hg1 & Ht1 & He1 & HP1 & Hcase).
+      rewrite Hd. cbn [bind].
+      assert (Hr1 : Rep a1 m) by (unfold Rep, abs; rewrite HP1; exact Hr).
+      assert (Hent1 : entries (backend a1) = N.of_nat (length (contents (cells (backend a1))))).
+      { rewrite He1, Hent. apply Permutation_length in HP1. now rewrite HP1. }
+      assert (HAV1 : AValid a1 e1) by (constructor; auto).
+      destruct (assoc m k) as [v'|] eqn:Ha.
+      + injection Hs as <- <-.
+        destruct (rep_present a1 e1 m k v' HAV1 Hr1 Ha) as (q & Hq & Lq).
+        rewrite (find_or_insert_present (backend a1) e1 q (k, v') (k, v)); auto. cbn [bind].
+        eexists _, _, e1. split; [reflexivity|]. cbn [erase].
+        split; [|split].
+        * destruct a1 as [t1 th1]. exact HAV1.
+        * destruct a1 as [t1 th1]. exact Hr1.
+        * unfold value_at. cbn [backend]. rewrite Hq. reflexivity.
+      + injection Hs as <- <-.
+        assert (Hroom : entries (backend a1) + 1 < 2 ^ e1).
+        { destruct Hcase as [[-> Hlt] | ->].
+          - rewrite He1. lia.
+          - rewrite He1, Hent. pose proof (v_room _ _ Hval). pose proof (pow2_succ e). lia. }
+        destruct (find_or_insert_absent (backend a1) e1 (k, v) Hv1 Hg1) as (q & Hfoi & Hemp & Hv2 & HP2); auto.
+        { now apply live_true. }
+        { eapply rep_absent; eauto. }
+        rewrite Hfoi. cbn [bind].
+        eexists _, _, e1. split; [reflexivity|]. cbn [erase]. split; [|split].
+        * constructor; cbn [backend threshold cells entries]; [exact Hv2|exact Hg1| |exact Ht1].
+          rewrite Hent1. apply Permutation_length in HP2. rewrite HP2. simpl. lia.
+        * unfold Rep, abs. cbn [backend cells]. rewrite HP2. apply perm_skip. exact Hr1.
+        * unfold value_at. cbn [backend cells]. rewrite get_upd_eq by (eapply emp_lt; eauto). reflexivity.
+    - (* Insert *)
+      destruct (assoc m k) as [v'|] eqn:Ha; [discriminate|]. injection Hs as <- <-.
+      cbn [step]. unfold auto_insert.
+      set (a0 := mkAuto (mkPT (cells (backend a)) (nbuckets (backend a)) (mask (backend a)) (entries (backend a) + 1)) (threshold a)).
+      destruct (double_if_needed_spec a0 e) as (a1 & e1 & Hd & Hv1 & Hg1 & Ht1 & He1 & HP1 & Hcase); auto.
+      rewrite Hd. cbn [bind]. cbn [backend cells entries threshold a0] in *.
+      assert (Hroom : N.of_nat (length (contents (cells (backend a1)))) + 1 < 2 ^ e1).
+      { apply Permutation_length in HP1. rewrite HP1.
+        destruct Hcase as [[-> Hlt] | ->].
+        - lia.
+        - pose proof (v_room _ _ Hval). pose proof (pow2_succ e). lia. }
+      destruct Hg1 as [Hnb1 Hm1].
+      destruct (unchecked_insert_absent (cells (backend a1)) e1 (k, v) Hv1) as (q & Hins & Hemp & Hv2 & HP2); auto.
+      { now apply live_true. }
+      { intros Hin. eapply (rep_absent a m k Hr Ha). unfold keys in *.
+        eapply Permutation_in; [|exact Hin]. apply Permutation_map. exact HP1. }
+      rewrite Hm1, Hins. cbn [bind fst snd].
+      eexists _, _, e1. split; [reflexivity|]. cbn [erase]. split; [|split; [|reflexivity]].
+      * constructor; cbn [backend threshold cells entries]; [exact Hv2|split; auto| |exact Ht1].
+        rewrite He1, Hent. apply Permutation_length in HP2. apply Permutation_length in HP1.
+        rewrite HP2. cbn [length]. rewrite HP1. lia.
+      * unfold Rep, abs. cbn [backend cells]. rewrite HP2. apply perm_skip. rewrite HP1. exact Hr.
+    - (* Find *)
+      injection Hs as <- <-. cbn [step]. unfold auto_find, find.
+      destruct Hgeom as [Hnb Hm]. rewrite Hm, ideal_mask.
+      destruct (assoc m k) as [v'|] eqn:Ha.
+      + destruct (rep_present a e m k v' HAV Hr Ha) as (q & Hq & Lq).
+        pose proof (find_present (cells (backend a)) e q (k, v') Hval Hq Lq) as Hf. cbn [ekey fst] in Hf.
+        rewrite Hf. cbn [bind]. eexists _, a, e. split; [reflexivity|]. split; [exact HAV|]. split; [exact Hr|].
+        cbn [erase]. unfold value_at. rewrite Hq. reflexivity.
+      + rewrite (find_absent (cells (backend a)) e k Hval Hk (rep_absent a m k Hr Ha)). cbn [bind].
+        eexists _, a, e. split; [reflexivity|]. split; [exact HAV|]. split; [exact Hr|]. reflexivity.
+    - (* Update *)
+      cbn [step]. unfold auto_update, auto_find, find.
+      destruct Hgeom as [Hnb Hm]. rewrite Hm, ideal_mask.
+      destruct (assoc m k) as [v'|] eqn:Ha; injection Hs as <- <-.
+      + destruct (rep_present a e m k v' HAV Hr Ha) as (q & Hq & Lq).
+        pose proof (find_present (cells (backend a)) e q (k, v') Hval Hq Lq) as Hf. cbn [ekey fst] in Hf.
+        rewrite Hf. cbn [bind fst snd]. eexists _, _, e. split; [reflexivity|]. cbn [erase].
+        split; [|split; [|reflexivity]].
+        * assert (Hv2 : Valid (upd (cells (backend a)) q (k, v)) e) by (eapply valid_set_value; eauto).
+          constructor; cbn [backend threshold cells entries]; [exact Hv2|split; auto| |exact Hthr].
+          rewrite Hent. f_equal.
+             assert (HK : keys (upd (cells (backend a)) q (k, v)) = keys (cells (backend a))) by (eapply contents_set_value; eauto).
+             unfold keys in HK. apply (f_equal (@length N)) in HK. now rewrite !map_length in HK.
+        * unfold Rep, abs. cbn [backend cells].
+          eapply contents_set_value_perm; eauto. apply Hval.
+      + rewrite (find_absent (cells (backend a)) e k Hval Hk (rep_absent a m k Hr Ha)). cbn [bind fst snd].
+        eexists _, a, e. split; [reflexivity|]. split; [exact HAV|]. split; [exact Hr|]. reflexivity.
+  Qed.
+
+  Theorem run_refines : forall ops (a : auto) e m sas m', AValid a e -> Rep a m ->
+    spec_run m ops = Some (sas, m') ->
+    exists ans a' e', run V v0 hash a ops = Ok (ans, a') /\ AValid a' e' /\ Rep a' m' /\ map erase ans = sas.
+  Proof.
+    induction ops as [|o ops IH]; intros a e m sas m' Hv Hr Hs.
+    - simpl in Hs. injection Hs as <- <-. exists [], a, e. simpl. auto.
+    - cbn [spec_run] in Hs. destruct (spec_step m o) as [[sa m1]|] eqn:H1; [|discriminate].
+      destruct (spec_run m1 ops) as [[sas1 m2]|] eqn:H2; [|discriminate]. injection Hs as <- <-.
+      destruct (step_refines a e m o sa m1 Hv Hr H1) as (ans & a1 & e1 & Hst & Hv1 & Hr1 & He).
+      destruct (IH a1 e1 m1 sas1 m2 Hv1 Hr1 H2) as (anss & a2 & e2 & Hrun & Hv2 & Hr2 & Hes).
+      cbn [run]. rewrite Hst. cbn [bind snd fst]. rewrite Hrun. cbn [bind fst snd].
+      exists (ans :: anss), a2, e2. split; [reflexivity|]. split; auto. split; auto.
+      simpl. now rewrite He, Hes.
+  Qed.
+
+  (* the initial table of any power-of-two size is valid and represents the empty set *)
+  Lemma init_valid e : AValid (mkAuto (mkPT (repeat (invalid, v0) (N.to_nat (2 ^ e))) (2 ^ e) (2 ^ e - 1) 0) (threshold_of (2 ^ e))) e
+                       /\ Rep (mkAuto (mkPT (repeat (invalid, v0) (N.to_nat (2 ^ e))) (2 ^ e) (2 ^ e - 1) 0) (threshold_of (2 ^ e))) [].
+  Proof.
+    pose proof (pow2_pos e) as HB.
+    split; [constructor|]; cbn [backend cells entries threshold].
+    - constructor.
+      + rewrite len_repeat. lia.
+      + unfold keys. rewrite contents_zeros. constructor.
+      + intros q en Hq L. exfalso.
+        assert (q < 2 ^ e) by (apply get_some_lt in Hq; rewrite len_repeat in Hq; lia).
+        rewrite get_repeat in Hq by lia. injection Hq as <-. discriminate L.
+      + rewrite contents_zeros. simpl. lia.
+    - split; reflexivity.
+    - now rewrite contents_zeros.
+    - apply threshold_lt_buckets. lia.
+    - unfold Rep, abs. cbn [backend cells]. rewrite contents_zeros. constructor.
+  Qed.
+
+  (* membership: Find reports a position exactly for the stored keys, and the position holds the pair *)
+  Theorem auto_find_spec (a : auto) e k : AValid a e -> k <> invalid ->
+    (forall v, In (k, v) (abs a) ->
+       exists i, auto_find V hash a k = Ok (Some i) /\ get (cells (backend a)) i = Some (k, v)) /\
+    (~ In k (map ekey (abs a)) -> auto_find V hash a k = Ok None).
+  Proof.
+    intros [Hval [Hnb Hm] Hent Hthr] Hk. unfold auto_find, find. rewrite Hm, ideal_mask. split.
+    - intros v Hin. apply in_contents in Hin. destruct Hin as (i & Hi & L).
+      exists i. split; auto. exact (find_present (cells (backend a)) e i (k, v) Hval Hi L).
+    - intros Hn. apply find_absent; auto.
+  Qed.
+
+  (* the empty marker itself is always reported present (first empty bucket from its ideal position) *)
+  Theorem invalid_key_always_found (a : auto) e : AValid a e ->
+    exists i, auto_find V hash a invalid = Ok (Some i).
+  Proof.
+    intros [Hval [Hnb Hm] Hent Hthr]. unfold auto_find, find. rewrite Hm, ideal_mask.
+    pose proof (v_len _ _ Hval) as Hl.
+    destruct (first_empty (cells (backend a)) (2 ^ e) Hl (ideal_of e invalid) (ideal_of_lt _ _) (valid_has_empty _ _ Hval)) as (q & Hq & Hall).
+    assert (Hqb : q < 2 ^ e) by (rewrite <- Hl; eapply emp_lt; eauto).
+    destruct Hq as (g & Hg & Lg). exists q.
+    rewrite (find_loop_walk (cells (backend a)) (2 ^ e) Hl (2 ^ e - 1) (next_mask e) invalid (length (cells (backend a))) (ideal_of e invalid) q) with (eq := g); auto.
+    - apply live_false in Lg. rewrite Lg, N.eqb_refl. reflexivity.
+    - apply ideal_of_lt.
+    - pose proof (dist_lt (2 ^ e) (ideal_of e invalid) q (ideal_of_lt _ _) Hqb). unfold len in Hl. lia.
+    - intros x Hx. destruct (Hall x Hx) as (g' & Hg' & Lg'). exists g'. repeat split; auto. now apply live_true.
+  Qed.
+
+  Definition init_pow2 (e : N) : auto :=
+    mkAuto (mkPT (repeat (invalid, v0) (N.to_nat (2 ^ e))) (2 ^ e) (2 ^ e - 1) 0) (threshold_of (2 ^ e)).
+
+  Theorem history_refines_set : forall e ops sas m',
+    spec_run [] ops = Some (sas, m') ->
+    exists ans a' e', run V v0 hash (init_pow2 e) ops = Ok (ans, a') /\
+                      map erase ans = sas /\ AValid a' e' /\ Permutation (abs a') m'.
+  Proof.
+    intros e ops sas m' Hs. destruct (init_valid e) as [Hv Hr].
+    destruct (run_refines ops _ e [] sas m' Hv Hr Hs) as (ans & a' & e' & Hrun & Hv' & Hr' & He).
+    exists ans, a', e'. auto.
+  Qed.
 End Proofs.
